@@ -315,6 +315,31 @@ example : (getAncestor exStore (fun _ _ => none) ⟨20, 20, 19, some 16⟩ 7).ma
 example : getLocator (ancOf exStore (fun _ _ => none)) 0 13 23 =
     some [23, 22, 21, 10, 9, 8, 7, 6, 5, 4, 2, 0] := by decide
 
+/-- `get_locator` never panics ("index calculated in get_locator") and its loop terminates, for
+every well-formed store, every start header and every chain length (in particular above
+`ONE_DAY_BLOCK_NUMBER`, where the index is halved): the model's fuel `start.number + 1` is never
+the reason to stop — any larger fuel gives the same locator. -/
+theorem locator_total {store : Store} (ok : StoreOk store) {scan : Nat → Hdr → Option Hdr}
+    (sok : ScanOk store scan) {start : Hdr} (hs : store start.id = some start) (genesis : Nat) :
+    (∃ l, getLocator (ancOf store scan) genesis start.number start.id = some l) ∧
+    (∀ extra, locatorLoop (ancOf store scan) (start.number + 1 + extra) 1 start.number start.id [] =
+      locatorLoop (ancOf store scan) (start.number + 1) 1 start.number start.id []) := by
+  constructor
+  · rw [locator_eq_walk ok sok hs genesis]
+    unfold getLocator
+    obtain ⟨r, hr⟩ := locatorLoop_some (walkId store start) (start.number + 1) 1 start.number start.id []
+      (by
+        intro i hi
+        obtain ⟨t, ht, _, _⟩ := walk_ok ok (start.number - i) start hs (by omega)
+        exact ⟨t.id, by simp [walkId, hi, ht]⟩)
+    rw [hr]
+    exact ⟨_, rfl⟩
+  · intro extra
+    exact locatorLoop_fuel _ _ _ 1 _ _ [] (Nat.le_refl _) (by omega) (by omega)
+
+example : ∃ l, getLocator (ancOf exStore (fun _ _ => none)) 0 13 23 = some l :=
+  ⟨[23, 22, 21, 10, 9, 8, 7, 6, 5, 4, 2, 0], by decide⟩
+
 end Skip
 
 /-! ## 3. In-flight download table -/
@@ -570,15 +595,14 @@ theorem counters_in_range {s : Inflight} (h : IReach s) {p : Nat} {sc : Sched} (
     sc.taskCount ≤ CkbVerif.Gen.Sync.MAX_BLOCKS_IN_TRANSIT_PER_PEER ∧ sc.timeoutCount ≤ 2 :=
   ⟨(inflight_inv2 h).taskLe p sc hp, (inflight_inv2 h).timeoutLe p sc hp⟩
 
-/-- A slow mark without a request is never created by `insert`, `remove_by_peer`, `prune`,
-`mark_slow_block` or a policy change; `remove_by_block b` creates one only for `b` itself and only
-when the peer `b` was requested from has no scheduler any more (it was evicted by `prune`): the
-code drops the mark inside `if let Some(set) = download_schedulers.get_mut(&state.peer)`. So
-`trace_number ⊆ inflight_states ∪ {blocks that arrived from an evicted peer}`. -/
+/-- No operation creates a slow mark without a request, from any table and with any arguments
+(since /repo commit 4f3b7cd `remove_by_block` drops the mark with the request whether or not the
+requesting peer still has a scheduler; before it, `remove_by_block b` was the one exception — see
+`remove_by_block_PreF23_releases_innocent_request`). -/
 theorem stale_mark_origin {s : Inflight} (h : IReach s) (x : Blk) :
     (∀ now peer b, Stale (insert s now peer b).1 x → Stale s x) ∧
     (∀ peer, Stale (removeByPeer s peer).1 x → Stale s x) ∧
-    (∀ now b, Stale (removeByBlock s now b).1 x → Stale s x ∨ (x = b ∧ Untracked s b)) ∧
+    (∀ now b, Stale (removeByBlock s now b).1 x → Stale s x) ∧
     (∀ now tip, Stale (prune s now tip).1 x → Stale s x) ∧
     (∀ now tip, Stale (markSlow s now tip) x → Stale s x) ∧
     (∀ a n, Stale (setPolicy s a n) x → Stale s x) :=
@@ -587,23 +611,98 @@ theorem stale_mark_origin {s : Inflight} (h : IReach s) (x : Blk) :
    fun now tip => stale_prune (inflight_inv2 h).traceNodup now tip,
    fun now tip => stale_markSlow now tip, fun _ _ hst => hst⟩
 
-/-- In particular: while every in-flight block's peer is tracked, every mark belongs to a request
-(`trace_number ⊆ inflight_states` is kept by every operation). Partial: the statement is per step;
-the exception (arrival from an evicted peer) is exactly `stale_mark_origin`. -/
-theorem trace_sub_states_partial {s : Inflight} (h : IReach s)
-    (tracked : ∀ b st, (b, st) ∈ s.states → ∃ sc, (st.peer, sc) ∈ s.scheds)
-    (sub : ∀ x, ¬ Stale s x) (x : Blk) :
-    (∀ now peer b, ¬ Stale (insert s now peer b).1 x) ∧ (∀ peer, ¬ Stale (removeByPeer s peer).1 x) ∧
-    (∀ now b, ¬ Stale (removeByBlock s now b).1 x) ∧ (∀ now tip, ¬ Stale (prune s now tip).1 x) ∧
-    (∀ now tip, ¬ Stale (markSlow s now tip) x) := by
-  obtain ⟨a1, a2, a3, a4, a5, _⟩ := stale_mark_origin h x
-  refine ⟨fun now peer b hs => sub x (a1 now peer b hs), fun peer hs => sub x (a2 peer hs), ?_,
-    fun now tip hs => sub x (a4 now tip hs), fun now tip hs => sub x (a5 now tip hs)⟩
-  intro now b hs
-  rcases a3 now b hs with h1 | ⟨_, st, hst, hno⟩
-  · exact sub x h1
-  · obtain ⟨sc, hsc⟩ := tracked b st hst
-    exact hno sc hsc
+/-- `trace_number ⊆ inflight_states`, for every reachable table: every slow mark belongs to a block
+that is in flight (full invariant; was `trace_sub_states_partial` before the repair of F23). -/
+theorem trace_sub_states {s : Inflight} (h : IReach s) : ∀ x, ¬ Stale s x := by
+  induction h with
+  | empty => rintro x ⟨⟨ts, hm⟩, _⟩; cases hm
+  | @insert s now peer b hr ih => exact fun x hs => ih x ((stale_mark_origin hr x).1 now peer b hs)
+  | @removeByPeer s peer hr ih => exact fun x hs => ih x ((stale_mark_origin hr x).2.1 peer hs)
+  | @removeByBlock s now b hr ih => exact fun x hs => ih x ((stale_mark_origin hr x).2.2.1 now b hs)
+  | @prune s now tip hr ih => exact fun x hs => ih x ((stale_mark_origin hr x).2.2.2.1 now tip hs)
+  | @markSlow s now tip hr ih => exact fun x hs => ih x ((stale_mark_origin hr x).2.2.2.2.1 now tip hs)
+  | setPolicy a n _ ih => exact ih
+
+/-- … in the map reading: every entry of `trace_number` has its entry in `inflight_states`. -/
+theorem marked_is_in_flight {s : Inflight} (h : IReach s) {b : Blk} {ts : Nat} (hm : (b, ts) ∈ s.trace) :
+    ∃ st, (b, st) ∈ s.states := by
+  cases Classical.em (∃ st, (b, st) ∈ s.states) with
+  | inl h1 => exact h1
+  | inr h1 => exact (trace_sub_states h b ⟨⟨ts, hm⟩, h1⟩).elim
+
+/-- Consequence for `prune`: a request released by the mark loop is released because of a mark made
+while this very request was in flight or by its own re-request below `restart_number` — never
+because of a mark left behind by an earlier request: right after any operation sequence followed
+by a fresh request of an unmarked block, that request survives every `prune` until it times out
+itself. -/
+theorem fresh_request_survives_prune {s : Inflight} (h : IReach s) {b : Blk} {now peer tip now' : Nat}
+    (hnew : ∀ st, (b, st) ∉ s.states) (hr : ¬ s.restartNumber ≥ b.number)
+    (hto : timedOut now' tip (b, { peer := peer, ts := now }) = false) :
+    (b, { peer := peer, ts := now }) ∈ (prune (insert s now peer b).1 now' tip).1.states := by
+  have hs : hasState s b = false := by
+    cases hh : hasState s b with
+    | false => rfl
+    | true =>
+      simp only [hasState, List.any_eq_true] at hh
+      obtain ⟨e, he, hb⟩ := hh
+      have : e.1 = b := by simpa using hb
+      exact (hnew e.2 (by rw [← this]; exact he)).elim
+  have hi := IReach.insert now peer b h
+  rw [(prune_exact hi now' tip).1]
+  refine ⟨by rw [insert_states]; simp [hs], hto, ?_⟩
+  rintro ⟨t, ht, hk, _⟩
+  rw [insert_trace] at ht
+  simp only [hs, Bool.false_eq_true, if_false, hr] at ht
+  -- a mark of `b` in the old table would be a mark without a request
+  have hk' : t.1 = b := hk
+  exact trace_sub_states h b ⟨⟨t.2, by rw [← hk']; exact ht⟩, fun ⟨st, hst⟩ => hnew st hst⟩
+
+/-- Witness for finding F23 (the code before /repo commit 4f3b7cd), the history of
+`corpus/C17/inflight-stale-mark-from-evicted-peer.ops`: peer 1 is evicted by `prune` (three
+time-outs) with its far-ahead request 300 left in flight; block 300 is marked slow and then
+arrives: the old `remove_by_block` keeps the mark without a request; peer 2 requests the block
+again, and `prune` one millisecond later releases that request (which has not timed out), halves
+peer 2's window and raises `restart_number` to 300. With the repaired function the same history
+keeps peer 2's request, window and `restart_number`. -/
+def f23Before : Inflight :=
+  let s := setPolicy {} true 0
+  let s := (insert s 1000 1 ⟨5, 50⟩).1
+  let s := (insert s 1000 1 ⟨6, 60⟩).1
+  let s := (insert s 1000 1 ⟨7, 70⟩).1
+  let s := (insert s 1000 1 ⟨300, 3000⟩).1
+  let s := (prune s 31001 4).1
+  markSlow s 40000 299
+
+theorem remove_by_block_PreF23_releases_innocent_request :
+    -- peer 1 is gone, its request 300 is still in flight and marked
+    f23Before.scheds = [] ∧ f23Before.states.map (·.1.number) = [300] ∧
+    f23Before.trace = [(⟨300, 3000⟩, 40000)] ∧
+    -- old code: the arrival leaves a mark without a request …
+    (removeByBlockPreF23 f23Before 40100 ⟨300, 3000⟩).1.states = [] ∧
+    (removeByBlockPreF23 f23Before 40100 ⟨300, 3000⟩).1.trace = [(⟨300, 3000⟩, 40000)] ∧
+    -- … which releases peer 2's 1 ms old request, halves its window and sets restart_number
+    timedOut 45001 299 (⟨300, 3000⟩, { peer := 2, ts := 45000 }) = false ∧
+    (let s := (insert (removeByBlockPreF23 f23Before 40100 ⟨300, 3000⟩).1 45000 2 ⟨300, 3000⟩).1
+     (prune s 45001 299).1.states = [] ∧
+     (prune s 45001 299).1.scheds.map (fun e => (e.1, e.2.taskCount, e.2.hashes.length)) = [(2, 16, 0)] ∧
+     (prune s 45001 299).1.restartNumber = 300) ∧
+    -- repaired code: the mark goes with the request; peer 2 keeps request, window, restart_number
+    (removeByBlock f23Before 40100 ⟨300, 3000⟩).1.trace = [] ∧
+    (let s := (insert (removeByBlock f23Before 40100 ⟨300, 3000⟩).1 45000 2 ⟨300, 3000⟩).1
+     (prune s 45001 299).1.states.map (fun e => (e.1.number, e.2.peer)) = [(300, 2)] ∧
+     (prune s 45001 299).1.scheds.map (fun e => (e.1, e.2.taskCount, e.2.hashes.length)) = [(2, 32, 1)] ∧
+     (prune s 45001 299).1.restartNumber = 0) := by
+  decide
+
+/-- non-vacuity of `trace_sub_states` / `fresh_request_survives_prune`: `f23Before` is reachable and
+carries a mark; the repaired history is reachable -/
+example : IReach f23Before :=
+  .markSlow _ _ (.prune _ _ (.insert _ _ _ (.insert _ _ _ (.insert _ _ _ (.insert _ _ _ (.setPolicy _ _ .empty))))))
+example : IReach (removeByBlock f23Before 40100 ⟨300, 3000⟩).1 ∧
+    (removeByBlock f23Before 40100 ⟨300, 3000⟩).1.states = [] ∧
+    (removeByBlock f23Before 40100 ⟨300, 3000⟩).1.restartNumber = 0 :=
+  ⟨.removeByBlock _ _ (.markSlow _ _ (.prune _ _ (.insert _ _ _ (.insert _ _ _ (.insert _ _ _ (.insert _ _ _
+    (.setPolicy _ _ .empty))))))), by decide, by decide⟩
 
 /-- When a tracked peer leaves, nothing of its requests stays anywhere: the marks of exactly its
 listed blocks go, none of its blocks is in flight, marked, or listed for anybody afterwards, and
